@@ -274,6 +274,17 @@ def gen_plan_directed(p, rng, limit):
             ls += [first, "@0 pc %d %d" % (d, a), third, "@0 save", "@0 load -1", "@0 pc %d %d" % (a, d), "@0 pc %d %d" % (d, a),
                    "@0 update | %s:S" % _key(5, a), "@0 update | %s:S" % _key(5, d), "@0 update | %s:S" % _key(5, a), "@0 update"]
             out += ls
+    # reports pending at load(): loading (the same or another state) discards them - a task appended afterwards must wait for a new report
+    if feat_has(p, "S") and N >= 2:
+        for a in states[:2]:
+            d = states[1] if a == states[0] else states[0]
+            for rep in ("fail", "succeed"):
+                ls = _activate(p)
+                if a != 0:
+                    ls.append("@0 ito %d" % a)
+                ls += ["@0 %s %d" % (rep, a), "@0 %s %d" % (rep, d), "@0 save", "@0 load -1", "@0 pc %d %d" % (a, d), "@0 pc %d %d" % (d, a),
+                       "@0 update", "@0 react 1", "@0 ito %d" % d, "@0 update", "@0 update | %s:S" % _key(5, d), "@0 update"]
+                out += ls
     # a chain as long as the capacity drained from the front (tasks end up in high slots of the storage and become the first)
     if N >= 2:
         cap = p.get("cap") or N
